@@ -53,6 +53,24 @@ def lib():
         from bacpypes import primitivedata as P, basetypes, apdu, object as O, constructeddata  # noqa
         from bacpypes.comm import PDUData
         L.P, L.PDUData = P, PDUData
+
+        # what a vendor's application adds: an object type enumeration extended into the vendor range and the identifier class that uses it,
+        # a vendor-extended property enumeration, a bit string with its own names
+        class VendorObjectType(P.ObjectType):
+            enumerations = dict(vendorChiller=128, vendorBoiler=500, vendorLast=1023)
+        P.expand_enumerations(VendorObjectType)
+
+        class VendorObjectIdentifier(P.ObjectIdentifier):
+            objectTypeClass = VendorObjectType
+
+        class VendorPropertyIdentifier(basetypes.PropertyIdentifier):
+            enumerations = dict(vendorGain=512, vendorTrim=4194303)
+        P.expand_enumerations(VendorPropertyIdentifier)
+
+        class VendorFlags(P.BitString):
+            bitNames = dict(fan=0, pump=1, valve=5, alarm=12)
+            bitLen = 13
+        L.harness_classes = (VendorObjectType, VendorObjectIdentifier, VendorPropertyIdentifier, VendorFlags)
         acc = []
 
         def walk(c):
